@@ -97,6 +97,10 @@ class C03(C02):
                 return None
             v, r = decode(case["value"]), decode(p["ok"])
             rp = io.get("reparse", {})
+            if r != r:
+                # a NaN result (only reachable through a declared Lax(const=nan)/enum member, which the property
+                # treats as trusted declaration data): "returns an equal value" is undefined for NaN -> oracle silent
+                return None
             if "ok" not in rp:
                 return f"T({v!r}) = {r!r} but T({r!r}) fails with {rp}; constraints {self._cs(case)} lax={case.get('lax')}"
             r2 = decode(rp["ok"])
@@ -119,6 +123,18 @@ class C03(C02):
                     return "lax-max-digits-carry"
         except Exception:
             pass
+        # known finding lax-const-not-origin: Lax(const=c)/Lax(enum=[...]) hands back the declared value c, which is not an
+        # instance of the origin type and which the origin conversion itself rejects (int origin, const=Lax(inf))
+        if case["op"] == "rule" and ({"const", "enum"} & set(case.get("lax", []))) and "ok" in io.get("parse", {}) \
+                and "perr" in io.get("reparse", {}):
+            r = decode(io["parse"]["ok"])
+            origin = {"int": int, "float": float, "str": str, "Decimal": Decimal, "bool": bool,
+                      "list": list, "tuple": tuple, "set": set}.get(case.get("origin"))
+            cs = self._cs(case)
+            declared = ([cs["const"]] if "const" in cs and "const" in case["lax"] else []) + \
+                       (list(cs["enum"]) if "enum" in cs and "enum" in case["lax"] and isinstance(cs["enum"], (list, tuple, set)) else [])
+            if origin is not None and not isinstance(r, origin) and any(type(r) is type(d) and same(r, d) for d in declared):
+                return "lax-const-not-origin"
         # known finding lax-result-not-revalidated: the value a Lax constraint produced violates another declared constraint
         if case["op"] == "rule" and case.get("lax") and len(case["constraints"]) >= 2 and "ok" in io.get("parse", {}):
             r = decode(io["parse"]["ok"])
